@@ -900,4 +900,6 @@ def run(chk):
     if not getattr(chk, "_overlay", None):
         from . import c14
         c14.kind_table_agreement(chk, P, "C15.R6:Kind-table")
+        from . import c17
+        c17.level_parse_rule(chk, P, "C15.R6:level-parse")
     return chk
